@@ -13,7 +13,8 @@ over histories of operations on one or two objects that share a model disk.  Aft
     reachable from the members; a read into a populated table must be refused;
 and at the end the destructor returns every block exactly once.
 Moves: the move constructor and move assignment are extracted too (R36; the other object's members are a second set of variables).
-NOT covered: comparison, the memory back end, injected
+Comparison: operator== is extracted too (R37).
+NOT covered: the memory back end, injected
 allocation failure (exceptions are a ghost flag, R7; catch(...) handlers are dropped, R22), convolve / evaluation with
 invalid arguments."""
 import sys, os, time, json, itertools, random, copy, multiprocessing as mp
@@ -101,7 +102,7 @@ def cstr(it, s): return G.Ptr(it.array("str", [ord(c) for c in s] + [0]), 0)
 
 OPS = [("read", "A"), ("read", "B"), ("read", "bad"), ("read", "bad2"), ("read", "none"), ("read", "out"), ("fit", "ok1"), ("fit", "ok2"), ("fit", "badargs"), ("fit", "fail"),
        ("key", "NOTE", "a'b"), ("key", "NOTE", "a longer value 42"), ("key", "ORDER7", "x"), ("rmkey", "NOTE"), ("rmkey", "GEOMETRY"), ("convolve", 0, 3), ("convolve", 1, 2), ("permute", "rev"), ("permute", "bad"), ("write", "out")]
-MOVE_OPS = [(0, "moveassign", 1), (1, "moveassign", 0), (0, "movector", 1), (1, "movector", 0), (0, "moveassign", 0)]
+MOVE_OPS = [(0, "moveassign", 1), (1, "moveassign", 0), (0, "movector", 1), (1, "movector", 0), (0, "moveassign", 0), (0, "equals", 1), (1, "equals", 0), (0, "equals", 0)]
 
 def run_history(arg):
     hist, fail_at = arg if (len(arg) == 2 and isinstance(arg[0], tuple) and arg[0] and isinstance(arg[0][0], tuple)) else (arg, None)
@@ -109,7 +110,7 @@ def run_history(arg):
     if fail_at is not None: tag += " with allocation %d failing" % fail_at
     try:
         prog, params = PROG; disk = make_disk(); faults = H.AllocFaults(fail_at)
-        objs = [T.new_object(prog, params, CONSTS, disk, X14.RatDom(), faults) for _ in range(1 + max(max(o[0], o[2] if o[1] in ("moveassign", "movector") else 0) for o in hist))]
+        objs = [T.new_object(prog, params, CONSTS, disk, X14.RatDom(), faults) for _ in range(1 + max(max(o[0], o[2] if o[1] in ("moveassign", "movector", "equals") else 0) for o in hist))]
         for step, op in enumerate(hist):
             it, al = objs[op[0]]; kind = op[1]; before = state(it, al); it.globals["vp_thrown"].cells[0] = 0
             faults.enabled = kind in ("read", "fit", "convolve"); faults.fired = False      # the functions extracted with R31 (allocation may throw)
@@ -135,6 +136,15 @@ def run_history(arg):
                     nd = len(before[1]["order"]) if before[0] == "table" else 0
                     perm = list(reversed(range(nd))) if op[2] == "rev" else ([0] * max(nd, 1) if nd != 1 else [1])
                     it.call("permuteDimensions", [G.Ptr(it.array("perm", perm or [0]), 0), len(perm)]); expect = "ok" if (op[2] == "rev" and nd) else ("fail" if op[2] == "bad" and nd else None)
+                elif kind == "equals":
+                    src = op[2]; its, als = objs[src]; names = ("ndim", "naux") + T.MEMBERS
+                    for n in names: it.globals["vp_other_" + n].cells[0] = its.globals[n].cells[0]
+                    r = it.call("vp_equals", []); other = state(its, als)
+                    def same(a, b):
+                        if a[0] != b[0]: return False
+                        if a[0] == "empty": return True
+                        x, y = a[1], b[1]; return x["order"] == y["order"] and x["naxes"] == y["naxes"] and x["knots"] == y["knots"] and x["coefficients"] == y["coefficients"]
+                    if bool(r) != same(before, other): bad.append("%s: operator== returns %s for %s tables" % (where, bool(r), "equal" if same(before, other) else "different")); break
                 elif kind in ("moveassign", "movector"):
                     src = op[2]; its, als = objs[src]; names = ("ndim", "naux") + T.MEMBERS
                     if kind == "movector":
@@ -217,7 +227,7 @@ def main():
     prep = [(0, "read", "A"), (0, "fit", "ok2"), (0, "key", "NOTE", "a'b"), (1, "read", "B"), (1, "fit", "ok1"), (1, "key", "NOTE", "a longer value 42")]
     for L in (0, 1, 2):
         for pre in itertools.product(prep, repeat=L):
-            for mv in MOVE_OPS: hists.append(tuple(pre) + (mv,)); hists.append(tuple(pre) + (mv, (mv[0], "convolve", 0, 3), (mv[2], "read", "A")))
+            for mv in MOVE_OPS: hists.append(tuple(pre) + (mv,)); hists.append(tuple(pre) + (mv, (mv[0], "convolve", 0, 3), (mv[2], "read", "A"), (0, "equals", 1)))
     if thorough: hists += [tuple(h) for h in itertools.product(core, repeat=4)]
     rnd = random.Random(vlib.SEED + 20); ops01 = ops0 + [(1,) + o for o in OPS] + MOVE_OPS
     for _ in range(400 if not thorough else 6000): hists.append(tuple(rnd.choice(ops01) for _ in range(rnd.randint(4, 25 if thorough else 12))))
@@ -249,7 +259,7 @@ def main():
     rep.samples += [o[0][:200] for o in flat[40:43]]
     rep.extra["evaluations"] = len(hists); rep.extra["distinct_nontrivial"] = len([h for h in hists if len(h) >= 2])
     rep.extra["rule"] = "one evaluation = one operation history executed from the extracted code with validity, failure-atomicity and allocator-reachability checked after every operation and the destructor at the end; non-trivial = at least two operations; histories are distinct tuples"
-    rep.assume("PARTIAL: operator==, the memory back end and the stacking constructor are NOT covered; moves between the two objects ARE (move constructor, move assignment, self-move; the allocator member travels with the storage: the ownership of the live blocks is moved / swapped by the check exactly where the code moves / swaps the allocator); allocation failure is injected only in read_fits_core, fit and convolve (R31: allocate<T> may throw); in the key-store functions the catch(...) handlers are dropped (R22) and permuteDimensions / write_fits_core use new[] only - no failure is injected there; exceptions are a ghost flag + early return (R7)",
+    rep.assume("PARTIAL: the memory back end and the stacking constructor are NOT covered; operator== IS (judged against field-by-field equality of orders, axis lengths, knots and coefficients); moves between the two objects ARE (move constructor, move assignment, self-move; the allocator member travels with the storage: the ownership of the live blocks is moved / swapped by the check exactly where the code moves / swaps the allocator); allocation failure is injected only in read_fits_core, fit and convolve (R31: allocate<T> may throw); in the key-store functions the catch(...) handlers are dropped (R22) and permuteDimensions / write_fits_core use new[] only - no failure is injected there; exceptions are a ghost flag + early return (R7)",
                "BOUNDED: enumerated / random histories over a fixed alphabet: reads of two valid files, two corrupt files, a missing file and a file written earlier in the history; fits (1-d, 2-d, invalid arguments, fitter failure); key insertion / rejection / removal; convolution (valid arguments only); valid and invalid permutations; writes",
                "cfitsio (specs/fitsmodel.py), the C fitter (glamfit_complex returns success after writing the coefficients, or a failure code without writing), cholmod and convoluted_blossom are assumed contracts supplied by the interpreter",
                "the oracle for outcomes: reads of valid files into empty tables, fits of valid problems into empty tables, valid keys, valid convolutions / permutations and writes of populated tables must succeed; reads into populated tables, corrupt / missing files, invalid fit arguments, fitter failure, reserved keys, invalid permutations and writes of empty tables must fail; a fit into a populated table may refuse or replace")
